@@ -14,7 +14,7 @@ ENGINES = [
     {"name": "harness-agent", "path": "/verif/harness/agent", "serves_properties": ["C01", "C02", "C03", "C04", "C05", "C07", "C08", "C09", "C10", "C11", "C12", "C13", "C14", "C15", "C16", "C18", "C19"],
      "kind_free_text": "cargo crate compiling /repo/proxy_agent/src through symlinks with the verif cfg; drivers: "
                        "function tables, proxy rig (real ProxyServer + mock hosts in a netns), disk, ..."},
-    {"name": "harness-ebpf", "path": "/verif/harness/ebpf", "serves_properties": ["C06"],
+    {"name": "harness-ebpf", "path": "/verif/harness/ebpf", "serves_properties": ["C06", "C07"],
      "kind_free_text": "gcc build of the unmodified eBPF C program against shim headers + Rust codec built from ebpf_obj.rs"},
     {"name": "harness-sys", "path": "/verif/harness/sys", "serves_properties": ["C17"],
      "kind_free_text": "mount-namespace wrapper (overlayfs), fake systemctl, stand-in agent; drives the real proxy_agent_setup"},
@@ -24,7 +24,7 @@ ENGINES = [
                        "X02_EXTHANDLER` (ExtHandler.tla: extension handler commands and service loop composed with Health.tla and "
                        "Setup's contract); their findings are listed in known_findings.json under X02_EXTHANDLER"},
     {"name": "harness-ext", "path": "/verif/harness/ext", "serves_properties": ["C20"],
-     "kind_free_text": "cargo crate compiling /repo/proxy_agent_extension/src through symlinks; replays TLC graphs"},
+     "kind_free_text": "cargo crate compiling /repo/proxy_agent_extension/src through symlinks; replays TLC graphs; drives the monitor loop's report poll by poll (hook H8) in a private mount namespace"},
 ]
 
 NOTES = ("Every check: bin/check <id> --tier quick|thorough. TLA+ specs in spec/, exhaustive configs in spec/mc, "
@@ -46,43 +46,43 @@ CHECKS = {
         "design_ref": "DESIGN.md §3 KeyKeeper.tla (C09)",
     },
     "C12": {
-        "text": "KeySecret.tla is a taint model of every flow of a value obtained from the host's key endpoint (key file, MACs, key-keeper status message -> logs/events/status.json/provision answers, signing errors -> connection log) with the key-directory steps; TLC checks NoLeak and AclBeforeFirstKeyFile for the design with withheld error texts and exhibits the leaking histories of the design that quotes the key. The real key keeper, proxy, status task, event logger and event reader run against a scripted mock WireServer issuing CANARY secrets through every history class of the model (latch, rotation, non-hex key, undeserialisable key reply, local fetch of a bad key, host errors, disable) while clients send proxied requests and /provision queries; every output (log, event, status, tag and rule-dump files, stdout/stderr, every client response, every host request) is scanned for every rendering of every canary and the key-directory system calls are read from strace; TLC validates the sink and fs events against KeySecretTrace.tla.",
+        "text": "KeySecret.tla is a taint model of every flow of a value obtained from the host's key endpoint (key file, MACs, key-keeper status message -> logs/events/status.json/provision answers, signing errors -> connection log) with the key-directory steps; TLC checks NoLeak and AclBeforeFirstKeyFile for the design with withheld error texts and exhibits the leaking histories of the design that quotes the key. The real key keeper, proxy, status task, event logger and event reader run against a scripted mock WireServer issuing CANARY secrets through every history class of the model (latch, rotation, non-hex key, undeserialisable key reply, local fetch of a bad key, host errors, disable) while clients send proxied requests and /provision queries; every output (log, event, status, tag and rule-dump files, stdout/stderr, every client response, every host request) is scanned for every rendering of every canary and the key-directory system calls are read from strace; TLC validates the sink and fs events against KeySecretTrace.tla. Further: key readers/writers dropped before the actor answers (KeySecret!UndeliveredReply), key documents delivered with a status other than 200, and kill injection at the publishing renames with a private TMPDIR (key material may only be found inside the key directory: KeySecret!CrashDuringStore).",
         "note": "Absence is established for the histories of one scripted run covering the model's classes and for the sinks enumerated; /dev/console cannot be captured here.",
         "technique": "TLA+ taint spec + TLC model checking; canary-secret conformance run on the real tasks; strace ordering; impl->spec trace validation",
         "design_ref": "DESIGN.md §3 C12",
     },
     "C13": {
-        "text": "RobustCut.tla defines the required truncation (total, whole characters, at most N bytes) and TLC enumerates every way up to 6 UTF-8 characters of widths 1-4 can straddle a byte cut; Robust.tla model-checks the service claim (every hostile input class leaves listener and tasks alive, every request answered - liveness). Each cut vector is padded to the real constants and fed to the real truncation sites (event message 4096, module status 1024); the connection-summary cut is reached through real caller processes whose command lines carry 2/3/4-byte characters at all four alignments; obs-text header values, repeated headers, very long URLs are sent to the real server; odd-length UTF-16, long non-ASCII and wrong-content-type replies are served to the real host clients; the log-line header is exercised 2*10^6 times. A process-wide panic hook records every panic; TLC validates the recorded input/outcome events against RobustTrace.tla (no panic, answered, follow-up probe served, status still published).",
+        "text": "RobustCut.tla defines the required truncation (total, whole characters, at most N bytes) and TLC enumerates every way up to 6 UTF-8 characters of widths 1-4 can straddle a byte cut; Robust.tla model-checks the service claim (every hostile input class leaves listener and tasks alive, every request answered - liveness). Each cut vector is padded to the real constants and fed to the real truncation sites (event message 4096, module status 1024); the connection-summary cut is reached through real caller processes whose command lines carry 2/3/4-byte characters at all four alignments; obs-text header values, repeated headers, very long URLs are sent to the real server; odd-length UTF-16, long non-ASCII and wrong-content-type replies are served to the real host clients; the log-line header is exercised 2*10^6 times. A process-wide panic hook records every panic; TLC validates the recorded input/outcome events against RobustTrace.tla (no panic, answered, follow-up probe served, status still published). Further: Robust.tla models handlers, actor replies, abandoning clients and the bounded event queue (the designs 'reply must be delivered' and 'evict then push' are told apart by TLC); every client call of every shared-state actor is polled once and dropped (the actor must go on answering); clients that go away with micro-second delays; 1100 requests fill the event queue, then 16 x 300 concurrent requests; every request-target form (CONNECT, OPTIONS *, absolute-form); rule documents with dangling names.",
         "note": "Inputs are the enumerated classes, not all byte strings; the clock-dependent log-header site is covered by repetition; Windows-only code not covered.",
         "technique": "TLA+ spec + TLC (cut-vector enumeration, service model with liveness); spec->impl replay of vectors and input classes; panic hook; impl->spec trace validation",
         "design_ref": "DESIGN.md §3 Robust.tla",
     },
     "C04": {
-        "text": "Canon.tla defines the string to sign on byte sequences; TLC checks over a complete small universe (colliding keys a=bc/ab=c, repeated and mixed-case names, valueless keys, blanks) that it covers every header and every query parameter (Injective, Deterministic). Seeded adversarial requests go through the real proxy and through hyper_client::build_request; the request AS RECEIVED by the mock host is tokenised, TLC (CanonTrace) computes the canonical string, and HMAC-SHA256 with Python's hmac under the key registered for the announced id must equal the header's MAC; exactly one authorization header with the right scheme and key id on non-exempt requests, none added on exempt ones; builder route and parts route compared on the same request.",
+        "text": "Canon.tla defines the string to sign on byte sequences; TLC checks over a complete small universe (colliding keys a=bc/ab=c, repeated and mixed-case names, valueless keys, blanks) that it covers every header and every query parameter (Injective, Deterministic). Seeded adversarial requests go through the real proxy and through hyper_client::build_request; the request AS RECEIVED by the mock host is tokenised, TLC (CanonTrace) computes the canonical string, and HMAC-SHA256 with Python's hmac under the key registered for the announced id must equal the header's MAC; exactly one authorization header with the right scheme and key id on non-exempt requests, none added on exempt ones; builder route and parts route compared on the same request. Further: slow uploads (head, pause, body), key rotations while keep-alive connections stay open (MAC under the key latched when relayed), neighbours of the two exempt uploads, requests whose key reply is held for 1.5 s at the H4 gate.",
         "note": 'Kernel audit map replaced by the cfg-guarded stand-in (hooks H1/H2); mock hosts in a private netns capture raw bytes.',
         "technique": "TLA+ canonicalisation spec + TLC (model checking and as canonicalisation oracle over captured requests); independent HMAC; spec->impl and impl->spec binding",
         "design_ref": "DESIGN.md §3 Canon.tla",
     },
     "C07": {
-        "text": "SingleUse is model-checked on Proxy.tla with two connections and two ports (lookup and remove as separate steps, every interleaving, close/reopen); every 5-operation history over two connection slots and two source ports printed by SingleUseGen.tla (attributed/direct connects, keep-alive requests, close, immediate REAL source-port reuse) is replayed on the real ProxyServer, plus a concurrent stress run; TLC validates every observed request against SingleUseTrace.tla: relayed only to its own connection's recorded destination with its own identity in the claims header, unattributed connections (incl. reused ports without a fresh record) refused with 421.",
-        "note": 'Kernel audit map replaced by the cfg-guarded stand-in (hooks H1/H2); mock hosts in a private netns capture raw bytes.',
+        "text": "SingleUse is model-checked on Proxy.tla with two connections and two ports (lookup and remove as separate steps, every interleaving, close/reopen); every 5-operation history over two connection slots and two source ports printed by SingleUseGen.tla (attributed/direct connects, keep-alive requests, close, immediate REAL source-port reuse) is replayed on the real ProxyServer, plus a concurrent stress run; TLC validates every observed request against SingleUseTrace.tla: relayed only to its own connection's recorded destination with its own identity in the claims header, unattributed connections (incl. reused ports without a fresh record) refused with 421. The kernel half of the statement (a later connection from a source port that still carries an earlier connection's unconsumed record gets its own record) is checked on the real eBPF C program with the directed port-reuse family of C06, judged by EbpfTrace.tla.",
+        "note": 'Kernel audit map replaced by the cfg-guarded stand-in (hooks H1/H2) for the agent side; the eBPF program runs in the user-space shim for the kernel side; mock hosts in a private netns capture raw bytes.',
         "technique": "TLA+ spec + TLC model checking; TLC-generated histories replayed with real port reuse; impl->spec trace validation",
         "design_ref": "DESIGN.md §3 Proxy.tla (C07)",
     },
     "C10": {
-        "text": "KeyGen.tla (the key actions of Proxy.tla with a history variable) is model-checked in both designs: two actor messages (KeyPairing violated) and one message (holds). A probe using the H4 schedule gate as a counter determines how many key reads each of the four signers (proxied request, goal state, shared config, IMDS) performs; every interleaving TLC prints for that design is forced on the real code through the gate (signer parked at its second read while the keeper rotates/clears the key) and the mock host's capture is verified with an independent HMAC; a stress run (signers x rotating keeper) is validated by TLC against KeyPairTrace.tla (announced id = key that verifies the MAC, id was latched).",
+        "text": "KeyGen.tla (the key actions of Proxy.tla with a history variable) is model-checked in both designs: two actor messages (KeyPairing violated) and one message (holds). A probe using the H4 schedule gate as a counter determines how many key reads each of the four signers (proxied request, goal state, shared config, IMDS) performs; every interleaving TLC prints for that design is forced on the real code through the gate (signer parked at its second read while the keeper rotates/clears the key) and the mock host's capture is verified with an independent HMAC; a stress run (signers x rotating keeper) is validated by TLC against KeyPairTrace.tla (announced id = key that verifies the MAC, id was latched). Further: every authorization header VALUE the host receives is verified (requests that already carry a forged or replayed header), and the real key keeper re-latches against a host that still names a lost key while issuing a fresh one (attestation, own calls and proxied requests must name the key whose secret made the MAC); the signing helper is stressed concurrently with two keys.",
         "note": "Hook H4: schedule point at the entry of KeyKeeperSharedState::get_key/set_key. Independent canonicalisation + HMAC in lib/vlib/canon.py.",
         "technique": "TLA+ spec + TLC model checking of both designs; deterministic schedule replay through gates; impl->spec trace validation of a stress run",
         "design_ref": "DESIGN.md §3 Proxy.tla (C10)",
     },
     "C14": {
-        "text": "Relay.tla (per-connection request queue, one request served at a time, one upstream connection behind a mutex, host responses) is model-checked for Order, HostSeesInOrder and AllAnswered (liveness) with two connections x three pipelined requests. Seeded exchanges on concurrent keep-alive connections with pipelining bursts (every method, repeated header names, binary-safe values, bodies 0..100 KiB declared or chunked at random boundaries, responses with random status/headers/bodies declared or chunked in random frames) are captured raw at both ends and compared field by field (bodies by SHA-256); TLC validates the per-exchange facts and the ordering against RelayTrace.tla.",
+        "text": "Relay.tla (per-connection request queue, one request served at a time, one upstream connection behind a mutex, host responses) is model-checked for Order, HostSeesInOrder and AllAnswered (liveness) with two connections x three pipelined requests. Seeded exchanges on concurrent keep-alive connections with pipelining bursts (every method, repeated header names, binary-safe values, bodies 0..100 KiB declared or chunked at random boundaries, responses with random status/headers/bodies declared or chunked in random frames) are captured raw at both ends and compared field by field (bodies by SHA-256); TLC validates the per-exchange facts and the ordering against RelayTrace.tla. Further: host faults after the request was read (no duplicate delivery), uploads abandoned mid-chunk (not relayed as complete), slowly streaming responses under concurrent connections to one endpoint, one-shot exchanges read late through a small receive buffer.",
         "note": 'Kernel audit map replaced by the cfg-guarded stand-in (hooks H1/H2); mock hosts in a private netns capture raw bytes. Framing headers and Date may be regenerated; names compared case-insensitively.',
         "technique": "TLA+ spec + TLC model checking (safety + liveness); raw-capture comparison at both ends; impl->spec trace validation",
         "design_ref": "DESIGN.md §3 Relay.tla",
     },
     "C01": {
-        "text": "TLC checks Mediation/StatusMap/NothingLeaks on three factored exhaustive configurations of Proxy.tla; every terminal scenario of the single-connection model (attribution x identity x destination x rule mode x fault x key x request shape, ~13k) is concretised with seeded random traffic and replayed on the real ProxyServer; every observed request (client status, whether and what the host received, stray bytes on the upstream connection) is validated by TLC against ProxyTrace's P_C01_* invariants, which recompute authorization from the recorded inputs with Authz!Result and Rbac!Decision.",
+        "text": "TLC checks Mediation/StatusMap/NothingLeaks on three factored exhaustive configurations of Proxy.tla; every terminal scenario of the single-connection model (attribution x identity x destination x rule mode x fault x key x request shape, ~13k) is concretised with seeded random traffic and replayed on the real ProxyServer; every observed request (client status, whether and what the host received, stray bytes on the upstream connection) is validated by TLC against ProxyTrace's P_C01_* invariants, which recompute authorization from the recorded inputs with Authz!Result and Rbac!Decision. Further: an identity-history scenario (a helper process exec()s another program between two connections; rules grant by executable path / process name) judged by RbacTrace.tla.",
         "note": 'Kernel audit map replaced by the cfg-guarded stand-in (hooks H1/H2); mock hosts in a private netns; one request per connection in this pipeline (keep-alive/reuse/concurrency: C07, C14); identity space = OS users root/daemon/bin/nobody and the harness process; rule documents are generated realisations of allow/deny, decided independently by Rbac.tla.',
         "technique": "TLA+ spec (Proxy.tla/Authz.tla/Rbac.tla) + TLC model checking; TLC-generated scenarios replayed on the real ProxyServer; impl->spec trace validation of every observed request",
         "design_ref": 'DESIGN.md §3 Proxy.tla',
@@ -100,7 +100,7 @@ CHECKS = {
         "design_ref": 'DESIGN.md §3 Proxy.tla',
     },
     "C11": {
-        "text": "Authz.tla EnforceBlocks/AuditForwards/DisabledIgnoresRules and Proxy.tla Modes/DenialCountedStep are model-checked; the pipeline replays every rule mode x decision x endpoint x caller; TLC validates P_C11_* on every observation: enforce+deny => 403, nothing relayed; audit+deny => relayed intact with the host's status; disabled => rules not consulted; each denial => failed-summary delta exactly 1 under the caller's user/process/command line/destination (read through the agent-status getter before and after the request).",
+        "text": "Authz.tla EnforceBlocks/AuditForwards/DisabledIgnoresRules and Proxy.tla Modes/DenialCountedStep are model-checked; the pipeline replays every rule mode x decision x endpoint x caller; TLC validates P_C11_* on every observation: enforce+deny => 403, nothing relayed; audit+deny => relayed intact with the host's status; disabled => rules not consulted; each denial => failed-summary delta exactly 1 under the caller's user/process/command line/destination (read through the agent-status getter before and after the request). Further: the real status task publishes every millisecond while denials are answered (each must be in the file written next), two callers with long command lines differing only near the end, 1000 pre-connected clients firing at once, and a deterministic recording burst on a single-threaded runtime (more than the status actor's mailbox holds).",
         "note": 'Kernel audit map replaced by the cfg-guarded stand-in (hooks H1/H2); mock hosts in a private netns; one request per connection in this pipeline (keep-alive/reuse/concurrency: C07, C14); identity space = OS users root/daemon/bin/nobody and the harness process; rule documents are generated realisations of allow/deny, decided independently by Rbac.tla.',
         "technique": "TLA+ spec (Proxy.tla/Authz.tla/Rbac.tla) + TLC model checking; TLC-generated scenarios replayed on the real ProxyServer; impl->spec trace validation of every observed request",
         "design_ref": 'DESIGN.md §3 Proxy.tla',
@@ -156,7 +156,7 @@ CHECKS = {
                 "no-match gives default) on every case, and prints each case with the expected decision; the real "
                 "serde -> from_authorization_item -> is_allowed path is evaluated on every case plus list permutations "
                 "and upper-casings of rule side and request side. Any difference is a violation (classified "
-                "structurally for known findings).",
+                "structurally for known findings). Further: slices for repeated query keys in both orders and for identity attributes differing in letter case only; a listener slice (decisions observed on keep-alive connections across document changes and rules-lookup faults, judged by RbacTrace.tla from (document, caller, URL) alone) and an identity-history scenario (a helper exec()s another program between connections).",
         "note": "Trusts TLC and the transcription of the statement in Rbac.tla. Ambiguity of the statement for repeated "
                 "query keys is resolved by accepting both readings. Universe bounded (<=2 of each list, pools of names).",
         "technique": "TLA+ declared-semantics spec; TLC exhaustive case enumeration; spec->impl function-table replay",
